@@ -1,5 +1,6 @@
 import ChythonModel.Py.Wire
 import ChythonModel.Model.Stereo
+import ChythonModel.Model.StereoParse
 /-!
 Line-protocol driver for C12. Every request is `<op> <int> …`; lists are length-prefixed; `-1` = `None`.
 
@@ -11,11 +12,38 @@ Line-protocol driver for C12. Every request is `<op> <int> …`; lists are lengt
   rt  <order> <env> <Hatoms> isStart implH mark                    label stored by the reader for a tetrahedron
   wa  n0 n1 n2 n3 <adj1> <adj2> <Hatoms> stored               writer mark of an allene
   ra  n0 n1 n2 n3 <ord1> <ord2> <Hatoms> mark                 label stored by the reader for an allene
+  po strong tokens… / rct stereo_bonds counterpart            parser bookkeeping; direction marks → add_cis_trans_stereo calls
   aw / awh / ws                                               add_wedge (heavy / hydrogen target), __wedge_sign
   rdb endsDistinct shareRing <ringSizes>                      double bond reported as stereogenic (chiral_cis_trans)
 Response: `ok <value>` or `err <PythonExceptionName>`; `bad` for a malformed request line.
 -/
 open ChythonModel.Py ChythonModel.Model.Stereo
+open ChythonModel.Model.StereoParse (Tok)
+
+/-- tokens on the wire: `0 arom stereo` atom, `1 o` bond, `9 up` direction bond, `4` dot, `2` `(`, `3` `)`, `6 n` ring number -/
+def parseToks : List Int → Option (List Tok)
+  | [] => some []
+  | 0 :: ar :: st :: r => (parseToks r).map (Tok.atom (ar != 0) (tri st) :: ·)
+  | 1 :: o :: r => (parseToks r).map (Tok.bond o.toNat :: ·)
+  | 9 :: u :: r => (parseToks r).map (Tok.dir (u != 0) :: ·)
+  | 4 :: r => (parseToks r).map (Tok.dot :: ·)
+  | 2 :: r => (parseToks r).map (Tok.lpar :: ·)
+  | 3 :: r => (parseToks r).map (Tok.rpar :: ·)
+  | 6 :: n :: r => (parseToks r).map (Tok.ring n.toNat :: ·)
+  | _ => none
+
+def showOptN : Option Nat → String
+  | some n => toString n
+  | none => "N"
+
+def showParse (s : ChythonModel.Model.StereoParse.St) : String :=
+  let bonds := " ".intercalate (s.bonds.map fun (a, b, _) => s!"{a}-{b}")
+  let order := " ".intercalate (s.order.map fun l => "[" ++ ",".intercalate (l.map showOptN) ++ "]")
+  let sa := " ".intercalate (s.stereoAtoms.map fun (i, m) => s!"{i}:{if m then 1 else 0}")
+  let sb := " ".intercalate (s.stereoBonds.map fun (a, l) =>
+    s!"{a}>" ++ ",".intercalate (l.map fun (b, v) => s!"{b}:{if v then 1 else 0}"))
+  let st := ",".intercalate (s.starts.map toString)
+  s!"ok n={s.nAtoms} | {bonds} | {order} | {sa} | {sb} | {st}"
 
 def takeList : List Int → Option (List Nat × List Int)
   | k :: rest =>
@@ -49,6 +77,29 @@ def parseTh : Nat → List Int → Option (List (Nat × V2) × List Int)
   | k+1, i :: x :: y :: rest => do
     let (tl, rest') ← parseTh k rest
     some ((i.toNat, (x, y)) :: tl, rest')
+  | _, _ => none
+
+def parseInner : Nat → List Int → Option (List (Nat × Bool) × List Int)
+  | 0, rest => some ([], rest)
+  | k+1, b :: v :: rest => do
+    let (tl, rest') ← parseInner k rest
+    some ((b.toNat, v != 0) :: tl, rest')
+  | _, _ => none
+
+def parseSB : Nat → List Int → Option (ChythonModel.Model.StereoParse.SB × List Int)
+  | 0, rest => some ([], rest)
+  | k+1, a :: j :: rest => do
+    if j < 0 then none
+    let (inner, rest1) ← parseInner j.toNat rest
+    let (tl, rest2) ← parseSB k rest1
+    some ((a.toNat, inner) :: tl, rest2)
+  | _, _ => none
+
+def parsePairs : Nat → List Int → Option (List (Nat × Nat) × List Int)
+  | 0, rest => some ([], rest)
+  | k+1, a :: b :: rest => do
+    let (tl, rest') ← parsePairs k rest
+    some ((a.toNat, b.toNat) :: tl, rest')
   | _, _ => none
 
 def showOpt : Except PyErr (Option Bool) → String
@@ -174,6 +225,41 @@ def handleInts (op : String) (xs : List Int) : Option String :=
                 | .error e => "err " ++ e.name)
         | _ => none
       | _ => none
+    | [] => none
+  | "po" =>
+    match xs with
+    | strong :: r => do
+      let toks ← parseToks r
+      some (match ChythonModel.Model.StereoParse.run (strong != 0) toks with
+            | .ok st => showParse st
+            | .error _ => "err IncorrectSmiles")
+    | [] => none
+  | "rct" =>
+    -- rct k (a j (b v)^j)^k  c (n m)^c  k2 (n m n0 n1 n2 n3)^k2 <Hatoms>
+    match xs with
+    | k :: r => do
+      if k < 0 then none
+      let (sb, r) ← parseSB k.toNat r
+      match r with
+      | c :: r =>
+        let (ctc, r) ← parsePairs c.toNat r
+        match r with
+        | k2 :: r =>
+          if k2 < 0 then none else
+          let (sct, r) ← parseSct k2.toNat r
+          let (hs, r) ← takeList r
+          match r with
+          | [] =>
+            -- each call `(n, m, n1, n2, mark)` ends in `_translate_cis_trans_sign`: report the label per double bond
+            some (match ChythonModel.Model.StereoParse.readerCisTransCalls sb ctc with
+                  | some calls => "ok " ++ " ".intercalate (calls.map fun (n, m, n1, n2, v) =>
+                      let lab := match translateCisTrans sct (hFun hs) n m n1 n2 none (some v) with
+                        | .ok true => "1" | .ok false => "0" | .error e => e.name
+                      s!"{min n m},{max n m}:{lab}")
+                  | none => "err KeyError")
+          | _ => none
+        | [] => none
+      | [] => none
     | [] => none
   | "rdb" =>
     match xs with
